@@ -269,7 +269,9 @@ func VH_C03_code(script int) {
 	case 1:
 		in["?x"] = false
 	}
+	in0 := vsnapshot(map[string]interface{}(in))
 	got, eerr := ExecQuery(env.ctx, q, env.loc, QueryContext{}, QueryResult{Bss: []Bindings{in}})
+	vassert(vdeepEq(map[string]interface{}(in), in0), "incoming-bindings-unmodified")
 	switch code {
 	case "throw 1":
 		vassert(eerr != nil, "throwing-script-is-an-error")
@@ -369,4 +371,35 @@ func vhIsNum(x interface{}, n int64) bool {
 		return v == float64(n)
 	}
 	return false
+}
+
+
+// VH_C03_or_code: an or whose first disjunct is a code term returning an object, followed
+// by a pattern disjunct: the second disjunct must see the original binding.
+func VH_C03_or_code(sc int) {
+	env := vhNewEnv(1)
+	y := vsymNum("fact.b", 0, 3)
+	_, err := env.loc.AddFact(env.ctx, "f", Map{"b": y})
+	vassume(err == nil)
+	q, perr := ParseQuery(env.ctx, map[string]interface{}{
+		"or":           []interface{}{map[string]interface{}{"code": "({z: 5})"}, map[string]interface{}{"pattern": map[string]interface{}{"b": "?z"}}},
+		"shortCircuit": sc == 1,
+	})
+	vassume(perr == nil)
+	got, eerr := ExecQuery(env.ctx, q, env.loc, QueryContext{Locations: []string{"here"}}, QueryResult{Bss: []Bindings{{"?k": "v"}}})
+	vassert(eerr == nil, "exec-no-error")
+	if eerr != nil {
+		return
+	}
+	if sc == 1 {
+		vassert(len(got.Bss) == 1, "short-circuit-stops-at-first-non-empty-disjunct")
+	} else {
+		// concatenation: the code disjunct's {k,z:5} and the pattern's {k,z:<fact.b>}
+		vassert(len(got.Bss) == 2, "or-is-concatenation-of-disjuncts")
+		if len(got.Bss) == 2 {
+			vassert(vhIsNum(got.Bss[0]["?z"], 5), "first-disjunct-result")
+			vassert(vdeepEq(got.Bss[1]["?z"], y), "second-disjunct-sees-original-binding")
+		}
+	}
+	vreach("end")
 }
